@@ -294,6 +294,40 @@ def time_literals(run, info, wd, stats):
                 run.cov["disagreements_checked"] += 1
                 run.violation("correspondence", "time-of-day renderer model and write_to_string differ: model %r (read back %r), renderer %r" % (mtext, back, mm.group(1)),
                               {"input": {"text": src}, "obligation": "C10_time_of_day_round_trip"}, no_input=True)
+    # dates: DATE# and the date of DATE_AND_TIME# (C10_date_round_trip), same two comparisons
+    dates = [(1, 1, 1), (9999, 12, 31), (2024, 2, 29), (2000, 2, 29), (1900, 2, 28), (10, 10, 10), (999, 9, 9), (1970, 1, 1), (2023, 11, 30)]
+    for _ in range(30 if run.tier == "quick" else 1500):
+        dates.append((rng.choice([rng.randint(1, 9999), rng.randint(1, 99), rng.randint(1900, 2100)]), rng.randint(1, 12), rng.randint(1, 28)))
+    dcases = []
+    for (y, mo_, d) in dates:
+        kind = rng.choice(["D", "DATE", "DT"])
+        lit = rng.choice(["%04d-%02d-%02d", "%d-%d-%d"]) % (y, mo_, d)
+        src = "PROGRAM p\nVAR\n  t : %s := %s#%s%s;\nEND_VAR\nEND_PROGRAM\n" % (
+            "DATE_AND_TIME" if kind == "DT" else "DATE", "DATE_AND_TIME" if kind == "DT" else kind, lit, "-01:02:03" if kind == "DT" else "")
+        dcases.append((src, y, mo_, d))
+    res = vlib.run_impl([{"id": i, "op": "roundtrip", "text": hexs(c[0])} for i, c in enumerate(dcases)], wd, per_case_timeout=30)
+    model = vlib.run_model([("lit", i, ["datetext", hexs(str(c[1])), hexs(str(c[2])), hexs(str(c[3]))]) for i, c in enumerate(dcases)], wd) \
+        if info.get("extract_ok") else {}
+    for i, ((src, y, mo_, d), r) in enumerate(zip(dcases, res)):
+        run.count(("date", src), True, "date")
+        if "panic" in r or "abort" in r or r.get("parse1") != "ok" or r.get("render1") in (None, "err"):
+            run.violation("impl-violates-property", "a date literal is not accepted / rendered: %r" % (r.get("panic") or r.get("abort") or r.get("diags"),),
+                          {"input": {"text": src}})
+            continue
+        out = bytes.fromhex(r["render1"]).decode("utf-8", "replace")
+        if not (r.get("parse2") == "ok" and r.get("equal") and r.get("fixed_point")):
+            run.violation("impl-violates-property", "a date does not survive render and re-parse", {"input": {"text": src}, "rendered": out})
+            continue
+        mm = re.search(r"#(\d+-\d+-\d+)", out)
+        mo = model.get(str(i))
+        if mo and mm:
+            n += 1
+            run.cov["traces_validated_against_impl"] += 1
+            mtext = "".join(chr(int(x)) for x in mo[0].split(".")) if mo[0] else ""
+            if mtext != mm.group(1) or mo[1:] != [str(y), str(mo_), str(d)]:
+                run.cov["disagreements_checked"] += 1
+                run.violation("correspondence", "date renderer model and write_to_string differ: model %r (read back %r), renderer %r" % (mtext, mo[1:], mm.group(1)),
+                              {"input": {"text": src}, "obligation": "C10_date_round_trip"}, no_input=True)
     return n
 
 
